@@ -204,6 +204,17 @@ def gen_code_tables(write, Fail) -> None:  # noqa: N803
     out.append(f"Definition RQ_NO_PAYLOAD : list Z := {codes(RQ_NO_PAYLOAD)}.")
     out.append(f"Definition RQ_IDX_COMPLEX : list Z := {codes(RQ_IDX_COMPLEX)}.")
     out.append(f"Definition CODES_ONLY_FROM_CTL : list Z := {codes(CODES_ONLY_FROM_CTL)}.")
+    from ramses_tx.ramses import CODE_IDX_DOMAIN  # noqa: PLC0415
+
+    out.append(f"Definition CODE_IDX_DOMAIN : list Z := {codes(CODE_IDX_DOMAIN)}.")
+    # (code, verb index [I;RQ;RP;W]) whose payload regex begins with ^00: _pkt_idx insists on index 00 for these when the code has no index
+    VERBS = (" I", "RQ", "RP", " W")
+    rows = [f"({int(c, 16)}, {VERBS.index(v)})" for c, d in sorted(CODES_SCHEMA.items()) for v in VERBS if isinstance(d.get(v), str) and d[v][:3] == "^00"]
+    out.append(f"Definition SCHEMA_STARTS_00 : list (Z * Z) := [{'; '.join(rows)}].")
+    from ramses_tx.const import DEV_ROLE_MAP  # noqa: PLC0415
+
+    for nm in ("APP", "HTG", "DHW"):
+        out.append(f"Definition ROLE_{nm} : Z := {int(getattr(DEV_ROLE_MAP, nm), 16)}.")
     for nm in ("CTL", "UFC", "PRG", "DTS", "DT2", "OTB", "HGI", "HCW"):
         out.append(f"Definition DEVTYPE_{nm} : Z := {int(getattr(DEV_TYPE_MAP, nm))}.")
     write("GenTables.v", "\n".join(out) + "\n")
